@@ -76,6 +76,9 @@ where
 {
     #[inline]
     unsafe fn release_event(&self) {
+        #[cfg(folo_verif)]
+        crate::__verif::notify_release(std::ptr::from_ref::<UnsafeCell<Event<T>>>(self));
+
         // The storage is owned by whoever placed the event there and is reused without dropping
         // the event, so we clear its diagnostic state before we let go of it.
         #[cfg(debug_assertions)]
@@ -162,6 +165,9 @@ where
     T: Send + 'static,
 {
     unsafe fn release_event(&self) {
+        #[cfg(folo_verif)]
+        crate::__verif::notify_release(std::ptr::from_ref::<UnsafeCell<Event<T>>>(self));
+
         // Releasing the memory does not drop the event, so we clear its diagnostic state first.
         #[cfg(debug_assertions)]
         Event::clear_awaiter_backtrace(self);
